@@ -155,12 +155,24 @@ pub const YAML_STRINGS: &[&str] = &[
 ];
 
 fn y_string(rng: &mut Rng) -> String {
-    match rng.weighted(&[6, 2, 2]) {
+    match rng.weighted(&[12, 4, 4, 1, 1, 1, 1]) {
         0 => rng.pick(YAML_STRINGS).to_string(),
         1 => format!("{}{}", rng.pick(YAML_STRINGS), rng.pick(YAML_STRINGS)),
-        _ => format!("name{}", rng.below(1000)),
+        2 => format!("name{}", rng.below(1000)),
+        // very long: beyond any line-folding width, with and without blanks / line breaks / non-BMP characters
+        3 => "x".repeat(*rng.pick(&[79usize, 80, 81, 300, 5000])),
+        4 => "ab cd ".repeat(*rng.pick(&[20usize, 200, 2000])),
+        5 => format!("{}\n{}\n\n  {}\n", rng.pick(YAML_STRINGS), "long line ".repeat(30), rng.pick(YAML_STRINGS)),
+        _ => format!("{}😀𝒳{}\u{10ffff}", rng.pick(YAML_STRINGS), "é€".repeat(50)),
     }
 }
+
+/// the small alphabet of the exhaustive block: strings that look like other YAML scalars or syntax
+pub const SPECIAL: &[&str] = &[
+    "", "~", "null", "Null", "true", "yes", "no", "on", "off", "123", "-5", "1.5", "1e3", "0x10", "0o17", ".inf", ".nan", "-", "- a", ": ", "a: b", "a:",
+    "#", "a #b", " lead", "trail ", " ", "'", "\"", "'q'", "a\nb", "\n", "a\n", "\na", "a\n\nb", "a\tb", "é", "😀", "[a]", "{a: b}", "&a", "*a", "!t", "|",
+    ">", "%", "@", "`", "? a", "---", "...", "2001-01-01", "12:30", "\u{85}", "\u{2028}", "\r", "a\r\nb", "\u{0}", "\u{feff}x", "\\", "\\n", "a, b",
+];
 
 fn nonempty(rng: &mut Rng) -> String {
     loop {
@@ -461,12 +473,258 @@ fn mutate_doc(rng: &mut Rng, t: &mut T) {
     }
 }
 
+
+// ------------------------------------------------------------------------------------------------
+// exhaustive block: every string site of a fully populated valid configuration x every SPECIAL string
+// ------------------------------------------------------------------------------------------------
+
+fn base_server_doc() -> Value {
+    let mut c = ServerConfig::default();
+    c.application_name = "app".into();
+    c.application_uri = "urn:app".into();
+    c.product_uri = "urn:product".into();
+    c.certificate_path = Some(PathBuf::from("own/cert.der"));
+    c.private_key_path = Some(PathBuf::from("private/key.pem"));
+    c.pki_dir = PathBuf::from("pki");
+    c.discovery_server_url = Some("opc.tcp://localhost:4840/".into());
+    c.tcp_config.host = "localhost".into();
+    c.locale_ids = vec!["en".into(), "de".into()];
+    c.discovery_urls = vec!["opc.tcp://localhost:4855/".into()];
+    c.user_tokens.insert("tokA".into(), ServerUserToken { user: "alice".into(), pass: Some("secret".into()), x509: None, thumbprint: None });
+    c.user_tokens.insert("tokB".into(), ServerUserToken { user: "bob".into(), pass: None, x509: Some("users/bob.der".into()), thumbprint: None });
+    let ids: BTreeSet<String> = ["ANONYMOUS", "tokA", "tokB"].iter().map(|s| s.to_string()).collect();
+    c.endpoints.insert(
+        "ep1".into(),
+        ServerEndpoint {
+            path: "/".into(),
+            security_policy: "Basic256Sha256".into(),
+            security_mode: "SignAndEncrypt".into(),
+            security_level: 3,
+            password_security_policy: Some("Basic256Sha256".into()),
+            user_token_ids: ids,
+        },
+    );
+    c.default_endpoint = Some("ep1".into());
+    serde_yaml::to_value(c).unwrap()
+}
+
+fn base_client_doc() -> Value {
+    let u = |n: u64| Value::Number(n.into());
+    let d = |secs: u64| map(vec![("secs", u(secs)), ("nanos", u(0))]);
+    let mut toks = serde_yaml::Mapping::new();
+    toks.insert(s("tokA"), map(vec![("user", s("alice")), ("password", s("secret"))]));
+    toks.insert(s("tokB"), map(vec![("user", s("bob")), ("cert_path", s("bob.der")), ("private_key_path", s("bob.pem"))]));
+    let mut eps = serde_yaml::Mapping::new();
+    eps.insert(s("ep1"), map(vec![("url", s("opc.tcp://localhost:4855/")), ("security_policy", s("None")), ("security_mode", s("None")), ("user_token_id", s("tokA"))]));
+    map(vec![
+        ("application_name", s("app")),
+        ("application_uri", s("urn:app")),
+        ("product_uri", s("urn:product")),
+        ("create_sample_keypair", Value::Bool(true)),
+        ("certificate_path", s("own/cert.der")),
+        ("private_key_path", s("private/key.pem")),
+        ("trust_server_certs", Value::Bool(false)),
+        ("verify_server_certs", Value::Bool(true)),
+        ("pki_dir", s("pki")),
+        ("preferred_locales", Value::Sequence(vec![s("en"), s("de")])),
+        ("default_endpoint", s("ep1")),
+        ("user_tokens", Value::Mapping(toks)),
+        ("endpoints", Value::Mapping(eps)),
+        (
+            "decoding_options",
+            map(vec![
+                ("max_message_size", u(327675)),
+                ("max_chunk_count", u(5)),
+                ("max_chunk_size", u(65535)),
+                ("max_incoming_chunk_size", u(65535)),
+                ("max_string_length", u(65535)),
+                ("max_byte_string_length", u(65535)),
+                ("max_array_length", u(1000)),
+            ]),
+        ),
+        ("session_retry_limit", u(10)),
+        ("session_retry_initial", d(1)),
+        ("session_retry_max", d(30)),
+        ("keep_alive_interval", d(10)),
+        ("request_timeout", d(60)),
+        ("publish_timeout", d(60)),
+        ("min_publish_interval", d(1)),
+        ("max_inflight_publish", u(2)),
+        ("session_timeout", u(60000)),
+        ("performance", map(vec![("ignore_clock_skew", Value::Bool(false)), ("recreate_monitored_items_chunk", u(1000)), ("max_inflight_messages", u(20))])),
+        ("session_name", s("Rust OPC UA Client")),
+    ])
+}
+
+/// a string site: a string leaf (path of keys / indices), or a key of the `user_tokens` / `endpoints` maps
+#[derive(Clone, Debug)]
+enum Site {
+    Leaf(Vec<Value>),
+    Key(Vec<Value>, String),
+}
+
+fn sites(v: &Value, path: &mut Vec<Value>, out: &mut Vec<Site>) {
+    match v {
+        Value::String(_) => out.push(Site::Leaf(path.clone())),
+        Value::Sequence(a) => {
+            for (i, x) in a.iter().enumerate() {
+                path.push(Value::Number((i as u64).into()));
+                sites(x, path, out);
+                path.pop();
+            }
+        }
+        Value::Mapping(m) => {
+            let keyed = matches!(path.last(), Some(Value::String(k)) if k == "user_tokens" || k == "endpoints");
+            for (k, x) in m {
+                if keyed {
+                    out.push(Site::Key(path.clone(), k.as_str().unwrap_or("").to_string()));
+                }
+                path.push(k.clone());
+                sites(x, path, out);
+                path.pop();
+            }
+        }
+        _ => {}
+    }
+}
+
+fn at_path<'a>(v: &'a mut Value, path: &[Value]) -> Option<&'a mut Value> {
+    let mut x = v;
+    for p in path {
+        x = match (x, p) {
+            (Value::Mapping(m), k) => m.get_mut(k)?,
+            (Value::Sequence(a), Value::Number(n)) => a.get_mut(n.as_u64()? as usize)?,
+            _ => return None,
+        };
+    }
+    Some(x)
+}
+
+/// every string equal to `old` at a reference position (default endpoint, token ids) becomes `new`
+fn rename_refs(v: &mut Value, old: &str, new: &str, under_ref: bool) {
+    match v {
+        Value::String(x) if under_ref && x == old => *x = new.to_string(),
+        Value::Sequence(a) => a.iter_mut().for_each(|x| rename_refs(x, old, new, under_ref)),
+        Value::Mapping(m) => {
+            for (k, x) in m.iter_mut() {
+                let r = matches!(k.as_str(), Some("default_endpoint") | Some("user_token_ids") | Some("user_token_id"));
+                rename_refs(x, old, new, r);
+            }
+        }
+        _ => {}
+    }
+}
+
+fn apply_site(base: &Value, site: &Site, text: &str) -> Option<Value> {
+    let mut v = base.clone();
+    match site {
+        Site::Leaf(p) => *at_path(&mut v, p)? = Value::String(text.to_string()),
+        Site::Key(p, old) => {
+            let which = p.last()?.as_str()?.to_string();
+            if let Value::Mapping(m) = at_path(&mut v, p)? {
+                if m.contains_key(&Value::String(text.to_string())) {
+                    return None;
+                }
+                // keep the position of the entry
+                let entries: Vec<(Value, Value)> = m.iter().map(|(k, x)| (k.clone(), x.clone())).collect();
+                m.clear();
+                for (k, x) in entries {
+                    let k2 = if k.as_str() == Some(old.as_str()) { Value::String(text.to_string()) } else { k };
+                    m.insert(k2, x);
+                }
+            }
+            // references follow the renamed key (token ids for `user_tokens`, default endpoint for `endpoints`)
+            let _ = which;
+            rename_refs(&mut v, old, text, false);
+        }
+    }
+    Some(v)
+}
+
+fn exhaustive_ops() -> Vec<String> {
+    let mut out = vec![];
+    for (side, base) in [("server", base_server_doc()), ("client", base_client_doc())] {
+        let mut ss = vec![];
+        sites(&base, &mut vec![], &mut ss);
+        for site in &ss {
+            for text in SPECIAL {
+                if let Some(v) = apply_site(&base, site, text) {
+                    out.push(format!("cfg {} {}", side, tree_out(&doc_tree(&v))));
+                }
+            }
+        }
+    }
+    out
+}
+
+/// all Option fields None / all Some, empty maps and lists
+fn shape_ops() -> Vec<String> {
+    let mut out = vec![];
+    for (side, base) in [("server", base_server_doc()), ("client", base_client_doc())] {
+        out.push(format!("cfg {} {}", side, tree_out(&doc_tree(&base))));
+        // every Option<String>/Option<PathBuf> None (as `null`) and (for skip_serializing_if fields) absent
+        let mut v = base.clone();
+        for k in ["certificate_path", "private_key_path", "discovery_server_url", "default_endpoint"] {
+            if let Value::Mapping(m) = &mut v {
+                if m.contains_key(&s(k)) && !(side == "client" && k == "default_endpoint") {
+                    m.insert(s(k), Value::Null);
+                }
+            }
+        }
+        if let Some(Value::Mapping(eps)) = at_path(&mut v, &[s("endpoints")]) {
+            for (_, e) in eps.iter_mut() {
+                if let Value::Mapping(e) = e {
+                    if e.contains_key(&s("password_security_policy")) {
+                        e.insert(s("password_security_policy"), Value::Null);
+                    }
+                    e.remove(&s("user_token_id"));
+                }
+            }
+        }
+        out.push(format!("cfg {} {}", side, tree_out(&doc_tree(&v))));
+        // empty maps and lists wherever the configuration stays loadable
+        let mut v = base.clone();
+        for k in ["user_tokens", "locale_ids", "preferred_locales"] {
+            if let Value::Mapping(m) = &mut v {
+                if let Some(x) = m.get_mut(&s(k)) {
+                    *x = if x.is_mapping() { Value::Mapping(Default::default()) } else { Value::Sequence(vec![]) };
+                }
+            }
+        }
+        rename_refs(&mut v, "tokA", "ANONYMOUS", false);
+        rename_refs(&mut v, "tokB", "ANONYMOUS", false);
+        out.push(format!("cfg {} {}", side, tree_out(&doc_tree(&v))));
+        let mut v2 = v.clone();
+        if let Value::Mapping(m) = &mut v2 {
+            m.insert(s("endpoints"), Value::Mapping(Default::default()));
+            m.insert(s("default_endpoint"), if side == "client" { s("") } else { Value::Null });
+            if side == "server" {
+                m.insert(s("discovery_urls"), Value::Sequence(vec![]));
+            }
+        }
+        out.push(format!("cfg {} {}", side, tree_out(&doc_tree(&v2))));
+    }
+    out
+}
+
 impl Prop for C41 {
     fn id(&self) -> &'static str {
         "C41"
     }
 
-    fn gen(&self, rng: &mut Rng, n: usize, _tier: Tier, out: &mut Vec<String>) {
+    fn gen(&self, rng: &mut Rng, n: usize, tier: Tier, out: &mut Vec<String>) {
+        for op in shape_ops() {
+            out.push("reset".into());
+            out.push(op);
+        }
+        // thorough: EVERY string site x EVERY special string; quick: a random tenth of that block
+        let all = exhaustive_ops();
+        for op in all {
+            if tier == Tier::Thorough || rng.chance(1, 10) {
+                out.push("reset".into());
+                out.push(op);
+            }
+        }
         for _ in 0..n {
             out.push("reset".into());
             let (side, v) = if rng.chance(1, 2) {
